@@ -19,4 +19,4 @@ def cut(t, n):
     return t if len(t) <= n else t[:n].rsplit(" ", 1)[0] + " …"
 for d in sorted(glob.glob(f"{V}/seeded/*/meta.json")):
     m = json.load(open(d)); v = m.get("verification", {})
-    print(f"| {m.get('breaks_property')} | {cut(m.get('summary',''), 230)} | {cut(m.get('needs',''), 200)} | {'; '.join(v.get('caught_by', [])) or '**not caught**'} | {'missed, check widened, now caught' if v.get('initially_missed') else 'caught'} | {cut(v.get('result',''), 200)} |")
+    print(f"| {os.path.basename(os.path.dirname(d))} | {cut(m.get('summary',''), 230)} | {cut(m.get('needs',''), 200)} | {'; '.join(v.get('caught_by', [])) or '**not caught**'} | {'missed, check widened, now caught' if v.get('initially_missed') else 'caught'} | {cut(v.get('result',''), 200)} |")
